@@ -110,7 +110,7 @@ class Style:
         overline: bool = None,
         link: str = None,
     ):
-        self._ansi: Optional[str] = None
+        self._ansi: Optional[Dict[ColorSystem, str]] = None
         self._style_definition: Optional[str] = None
 
         def _make_color(color: Union[Color, str]) -> Color:
@@ -275,6 +275,10 @@ class Style:
             str: String containing codes.
         """
         if self._ansi is None:
+            # cached codes, one entry per color system
+            self._ansi = {}
+        ansi = self._ansi.get(color_system)
+        if ansi is None:
             sgr: List[str] = []
             append = sgr.append
             _style_map = self._style_map
@@ -304,8 +308,8 @@ class Style:
                         foreground=False
                     )
                 )
-            self._ansi = ";".join(sgr)
-        return self._ansi
+            ansi = self._ansi[color_system] = ";".join(sgr)
+        return ansi
 
     @classmethod
     @lru_cache(maxsize=1024)
